@@ -10,8 +10,9 @@ The model is parametrised by `Dev`, the list of operator-level DEVIATIONS of the
 specification (known findings C12-uncomparable-panic, C12-neq-float, C12-int-via-float64). `Dev.pinned`
 is the tree as first pinned, `Dev.current` the code after the applied `fix:` commits; switching a flag off
 gives the code with the corresponding fix applied.
-Two further known findings are not operator-level: C12-bare-path is carried by `compile` (its `wrap`
-argument says whether the route rewrites a bare path into an existence test), C12-fn-arg-rotation (repaired by
+Two further former findings were not operator-level: C12-bare-path (repaired by fe63c88 for built
+`Get(x)` scripts and by 6b93c2a — the `bare` branch of `matchElem` — for filters; `matchGeneral` on
+`compile false` is the behaviour before), C12-fn-arg-rotation (repaired by
 cd355fe) was a defect of the script PARSER, which is not modelled: the harness fed the model the tree the
 parser built (fnarg family, now run on the written tree).
 
@@ -348,8 +349,22 @@ def matchResolved (d : Dev) (rx : RxEngine) (st : List RItem) : Except Fault Boo
     | .ok [] => .error .index                      -- sstack[0] of an empty template
     | .ok (v :: _) => .ok (Spec.isTrue v)
 
-def matchElem (d : Dev) (rx : RxEngine) (prog : List Item) (elem root : Val) : Except Fault Bool :=
+/-- the general path of the per-element loop: resolve the operands, expand, evaluate. Before 6b93c2a
+this was the verdict for EVERY template. -/
+def matchGeneral (d : Dev) (rx : RxEngine) (prog : List Item) (elem root : Val) : Except Fault Bool :=
   matchResolved d rx (resolve elem root false prog)
+
+/-- the verdict for one element. Since 6b93c2a a template that is exactly one path (`bare`:
+`len(s.template) == 1` and `s.template[0].(Expr)`) is an existence test: `match = sstack[0] != Nothing`
+on the resolved cell (a value, Nothing, or a multivalue — which is not Nothing). The regenerated fact
+`Gen.Script.bareExistence` (theorem `C12.bare_test_ok`) pins the presence of that branch. -/
+def matchElem (d : Dev) (rx : RxEngine) (prog : List Item) (elem root : Val) : Except Fault Bool :=
+  match prog with
+  | [.path p] =>
+    match resolveItem elem root false (.path p) with
+    | .val .nothing => .ok false
+    | _ => .ok true
+  | _ => matchGeneral d rx prog elem root
 
 /-! ## Equation.buildScript, Script(), Filter() -/
 
@@ -360,8 +375,10 @@ def flatten : Tm → List Item
   | .app2 o a b => if o.cnt = 1 then .op o :: flatten a else .op o :: (flatten a ++ flatten b)
 
 /-- `wrap` = the route goes through `Equation.Script()` (text read by `NewScript`, or — since fe63c88 —
-a built `jp.Get(x)` equation): a bare path is turned into `path exists true`. `Equation.Filter()`
-(`$[?(@.a)]`, `Expr.Filter`) keeps the bare path: known finding C12-bare-path. -/
+a built `jp.Get(x)` equation): a bare path is laid out as `path exists true`. `Equation.Filter()`
+(`$[?(@.a)]`, `Expr.Filter`) lays out the bare path alone; since 6b93c2a `matchElem` evaluates that
+one-cell template as an existence test too (before: "is the value the boolean true", former known
+finding C12-bare-path). -/
 def compile (wrap : Bool) (t : Tm) : List Item :=
   match t with
   | .path p => if wrap then [.op .exists, .path p, .val (.bool true)] else [.path p]
